@@ -504,6 +504,9 @@ Fixpoint lower_s (s : stmt) : list hexpr :=
     HDefVar [lower_e e]
       :: map (fun _ => HDefVar [HCallMethod false (HName false) [pos_arg (HLit false)]]) ids
   | SPCall _ args => [HCallLocal false LOther (map (fun x => pos_arg (lower_e x)) args)]
+  | SNPat pt e =>
+    HDefVar [lower_e e]
+      :: map (fun _ => HDefVar [HCallMethod false (HName false) [pos_arg (HLit false)]]) (pat_ids pt)
   end.
 
 Definition lower (cp : cprog) : hprog := flat_map lower_s (c_body cp).
